@@ -242,6 +242,52 @@ def process_function(res, rep, contract, repo, findings, opts):
         res.violations.append({'obligation': name, 'replay': path, 'confirmed': False,
                                'detail': 'refuted by the solver; no failing input reproduced natively (%s)' % verdict.get('detail', ''),
                                'witness': spec['args']})
+    # obligations the solvers left open (typically: the negation is satisfiable but no back end produces a model).  Where the contract
+    # has a native builder and a witness search space, look for a failing input on the REAL code: a confirmed one is a violation of
+    # the contract (replayed); finding none leaves the obligation undecided - it is never counted as discharged.
+    if contract.build and contract.ghost.get('search'):
+        import itertools as _it
+        keys = list(contract.ghost['search'])
+        combos = list(_it.product(*[contract.ghost['search'][k] for k in keys]))[:400]
+        still = []
+        for u in res.undecided:
+            name = u.get('obligation')
+            if not name or name not in rep.obligations or rep.obligations[name]['status'] != 'undecided' or not name.startswith(rep.qual + '#'):
+                still.append(u)
+                continue
+            ent = rep.obligations[name]
+            spec = {'repo': repo, 'verif': VERIF, 'qual': rep.qual, 'scope': contract.scope, 'args': {}, 'probes': {},
+                    'argorder': fn_args, 'ensures': list(contract.ensures) + list(contract.ghost.get('replay_ensures', [])),
+                    'generator': bool(contract.yield_ensures), 'requires': contract.requires, 'raises': contract.raises,
+                    'builder': contract.build, 'obligation': name, 'property': pid, 'case': '', 'kind': ent['kind'], 'site': '',
+                    'note': 'undecided by the solvers; native witness search', 'source_sha256': rep.sha256, 'solver_model': '',
+                    'variants': [dict(zip(keys, c)) for c in combos]}
+            path = obligation_file(pid, name)
+            if os.environ.get('PYVC_REPLAY_DIR'):
+                path = os.path.join(os.environ['PYVC_REPLAY_DIR'], os.path.relpath(path, 'replay'))
+            os.makedirs(os.path.join(VERIF, os.path.dirname(path)), exist_ok=True)
+            full = os.path.join(VERIF, path)
+            json.dump(spec, open(full, 'w'), indent=1, default=str)
+            verdict = run_native_replay(full)
+            spec['native'] = verdict
+            if verdict.get('confirmed') and verdict.get('witness_args'):
+                spec['args'] = verdict['witness_args']
+            json.dump(spec, open(full, 'w'), indent=1, default=str)
+            if not verdict.get('confirmed'):
+                still.append(u)
+                continue
+            known = [f for f in findings if f['property'] == pid and finding_matches(f, name, spec['args'])]
+            if known:
+                line = 'KNOWN-FINDING: property=%s %s' % (pid, known[0]['what'])
+                if line not in res.known:
+                    res.known.append(line)
+                res.excluded_by_known.append(name)
+                still.append(u)
+                continue
+            res.violations.append({'obligation': name, 'replay': path, 'confirmed': True,
+                                   'detail': 'left open by the solvers; ' + str(verdict.get('detail')), 'outcome': verdict.get('outcome'),
+                                   'witness': spec['args']})
+        res.undecided[:] = still
 
 
 def write_evidence(res, level, wall, checker_cmd, explanation=''):
